@@ -94,13 +94,30 @@ impl TextDocument {
         Ok(())
     }
 
+    /// Converts an LSP position to a byte index into `content`.
+    ///
+    /// `position.character` counts UTF-16 code units (the protocol's default position encoding),
+    /// so the line is walked char by char. Characters past the end of the line are clamped to the
+    /// end of the line, and a position inside a surrogate pair snaps to the following char.
     fn position_to_index(&self, position: Position) -> usize {
-        let line_offset = self
+        let line = position.line as usize;
+        let Some(&line_start) = self.line_offsets.get(line) else {
+            return self.content.len();
+        };
+        let line_end = self
             .line_offsets
-            .get(position.line as usize)
+            .get(line + 1)
             .copied()
             .unwrap_or(self.content.len());
-        line_offset + position.character as usize
+        let target = position.character as usize;
+        let mut utf16_units = 0usize;
+        for (i, c) in self.content[line_start..line_end].char_indices() {
+            if utf16_units >= target || c == '\n' {
+                return line_start + i;
+            }
+            utf16_units += c.len_utf16();
+        }
+        line_end
     }
 
     fn calculate_line_offsets(text: &str) -> Vec<usize> {
